@@ -88,7 +88,10 @@ let instr = function
   | _ -> failwith "instr"
 (* ["touch"] asks the implementation to hash, print and read every accessor of the
    value on top of the stack; for the pure model that is the identity, so it is skipped *)
-let is_touch = function VL [VS _ as t] when tag t = "touch" -> true | _ -> false
+let is_touch = function
+  | VL [VS _ as t] when tag t = "touch" -> true
+  | VL ((VS _ as t) :: _) when tag t = "derive" -> true    (* a derivation whose result is discarded: identity for the pure model *)
+  | _ -> false
 let prog v = match v with
   | VL l -> List.map instr (List.filter (fun x -> not (is_touch x)) l)
   | _ -> gl instr v
